@@ -46,16 +46,22 @@ def gen_scenarios(c, nref, lastwait):
         scs.append(cases.sc_restart(f"s{k:04d}", kind, kill, latch, sig, second))
 
     if c.quick:
+        # coarse phases first (they survive a time-limited run), then the line sweep, configurations interleaved
+        phases = [("one", "running:1"), ("chain2", "between:1"), ("indep2", "running:2"), ("one", "spawn:1"),
+                  ("chain2", "running:1"), ("one", "entered"), ("indep2", "submitted"), ("chain2", "start")]
+        for kind, ph in phases:
+            add(kind, {"phase": ph}, rng.choice(["late", "late", "early"]), rng.choice(SIGNALS))
+        add("one", {"line": rng.randrange(20, 40)}, "late", "KILL", second=rng.randrange(5, 60))
         steps = dict(one=3, chain2=5, indep2=9)
+        per = {}
         for kind in ("one", "chain2", "indep2"):
             off = rng.randrange(steps[kind])
-            for n in range(1 + off, nref[kind] + 1, steps[kind]):
-                add(kind, {"line": n}, rng.choice(["late", "late", "early", "free"]), rng.choice(["KILL", "KILL", "TERM", "INT"]))
-        phases = [("one", "entered"), ("one", "running:1"), ("one", "spawn:1"), ("chain2", "between:1"),
-                  ("chain2", "running:1"), ("indep2", "running:2"), ("indep2", "submitted"), ("chain2", "start")]
-        for kind, ph in phases:
-            add(kind, {"phase": ph}, rng.choice(["late", "early"]), rng.choice(SIGNALS))
-        add("one", {"line": rng.randrange(20, 40)}, "late", "KILL", second=rng.randrange(5, 60))
+            per[kind] = [(kind, n) for n in range(1 + off, nref[kind] + 1, steps[kind])]
+        while any(per.values()):
+            for kind in ("one", "chain2", "indep2"):
+                if per[kind]:
+                    kd, n = per[kind].pop(0)
+                    add(kd, {"line": n}, rng.choice(["late", "late", "early", "free"]), rng.choice(["KILL", "KILL", "TERM", "INT"]))
     else:
         for kind in ("one", "chain2", "indep2"):
             for n in range(1, nref[kind] + 1):
@@ -82,13 +88,17 @@ def hang_signature(sc, out, rows):
     the latches are open, the log has been silent for a while, and a restarted experiment is still there"""
     if not out["timed_out"] or not out.get("alive_at_end"):
         return None
-    if (out.get("quiet_s") or 0) < 8:
+    if (out.get("quiet_s") or 0) < 10:
         return None
+    if not all(out["snapshot"].get(str(t), {}).get("done") for t in sc["tags"]):
+        return None             # something may still have to run: not conclusive
     begun = {(r["tag"], r["pid"]) for r in rows if r["who"] == "P" and r["kind"] == "begin"}
     ended = {(r["tag"], r["pid"]) for r in rows if r["who"] == "P" and r["kind"] == "end"}
     if begun - ended:
         return None
-    stuck = [x for x in out["alive_at_end"] if not x.endswith(".0")]
+    stuck = [x for x in out["alive_at_end"] if not x.endswith(".0")
+             and any(r["who"] == x.split(".")[0] and str(r.get("run")) == x.split(".")[1] and r["kind"] == "phase"
+                     and r["rest"] == ["submitted"] for r in rows)]
     if not stuck:
         return None
     empty = [t for t, s in out["snapshot"].items() if s.get("pid") and s.get("pidvalue") in (None, "unreadable")]
